@@ -9,7 +9,7 @@ LEVEL = "other"
 SELFTEST_PARTS = ("num",)
 WALL_BUDGET = {"quick": 1200, "thorough": 9000}
 ACTIONS = ["remote-write", "remote-delete", "local-create", "local-edit", "request-path", "request-id", "unrequest", "listdir", "remote-mkdir", "remote-create-b",
-           "unrequest-id", "remote-create-nested", "request-nested"]
+           "unrequest-id", "remote-create-nested", "request-nested", "unrequest-b", "remote-write-b"]
 QUICK_ACTIONS = 10        # the generic quick families draw from the first ten; the last three are exercised by focused families
 
 
@@ -48,6 +48,8 @@ def _factory(params, env=None, monitor=None):
         requested = False          # is /a currently requested?
         ever = False
         req_n = ever_n = False     # the same for the nested file /m/f
+        unreq_b = [False]          # /b (auto-sync match) was explicitly un-requested by the application (with nothing in flight)
+        unreq_b_any = [False]
         hist = h.hist
         nloc = [0]
 
@@ -59,6 +61,8 @@ def _factory(params, env=None, monitor=None):
                 raise Fail("a file that exists only remotely was downloaded although nobody requested it", where=where, symptom="downloaded-unrequested")
             if not ever_n and lab.user(lambda: l.info_path("/L/m/f")):
                 raise Fail("a nested file that exists only remotely was downloaded although nobody requested it", where=where, symptom="downloaded-unrequested")
+            if unreq_b[0] and lab.user(lambda: l.info_path("/L/b")):
+                raise Fail("a file the application un-requested was downloaded again without a new request", where=where, symptom="downloaded-unrequested")
             if not auto and lab.user(lambda: l.info_path("/L/b")):
                 raise Fail("a remote-only file was downloaded without request or predicate", where=where, symptom="downloaded-unrequested")
 
@@ -69,6 +73,13 @@ def _factory(params, env=None, monitor=None):
                 except Fail as f:
                     return f.why
         h.monitors.append(NoDownload())
+        remote_seen = [True]       # has the remote intake run since the last remote mutation? (the listing can only know what the engine has been told)
+
+        class RemoteSeen:
+            def after(self, hh, which):
+                if which == 1:
+                    remote_seen[0] = True
+        h.monitors.append(RemoteSeen())
         try:
             first = params.get("first")
             prefix = params.get("prefix") or ([first] if first else [])
@@ -76,6 +87,8 @@ def _factory(params, env=None, monitor=None):
                 a = prefix[k] if k < len(prefix) else ACTIONS[e.choose("action", params.get("pool") or len(ACTIONS))]
                 tag = b"%d" % k
                 n0 = len(lab.calls)
+                if a.startswith("remote-"):
+                    remote_seen[0] = False
                 try:
                     if a == "remote-write":
                         i = lab.user(lambda: r.info_path("/R/a"))
@@ -127,6 +140,28 @@ def _factory(params, env=None, monitor=None):
                             lab.cs.smart_sync_oid(i.oid)
                             requested = ever = True
                             hist.append("request-id")
+                        else:
+                            hist.append("noop")
+                    elif a == "remote-write-b":
+                        i = lab.user(lambda: r.info_path("/R/b"))
+                        if i:
+                            lab.user(lambda: r.upload(i.oid, io.BytesIO(b"B" + tag)))
+                            hist.append("remote-write-b")
+                        else:
+                            hist.append("noop")
+                    elif a == "unrequest-b":
+                        if lab.user(lambda: l.info_path("/L/b")):
+                            calm = lab.cs.state.changeset_len == 0 and all(p_._cursor == p_._latest_cursor for p_ in lab.p)
+                            res = lab.cs.smart_unsync_path("/L/b", 0)
+                            hist.append("unrequest-b")
+                            if res:
+                                unreq_b_any[0] = True
+                                # judged only when nothing was in flight at the time of the call (a remote edit that is still pending when the
+                                # application un-requests the file is an ambiguous race between the predicate and the un-request)
+                                if calm:
+                                    unreq_b[0] = True
+                                if lab.user(lambda: l.info_path("/L/b")):
+                                    raise Fail("un-request left the local copy in place", symptom="unrequest-kept-local")
                         else:
                             hist.append("noop")
                     elif a == "remote-create-nested":
@@ -183,6 +218,10 @@ def _factory(params, env=None, monitor=None):
                             if "/" not in p[1:] and tl[p] is not None and ls.get("/L" + p) is not True:
                                 raise Fail("merged listing does not report a local file as synced", path=p, listing=repr(ls), symptom="listdir-local")
                         tr = lab.tree(1)
+                        for lp in ls:
+                            rel = lp[len("/L"):]
+                            if remote_seen[0] and rel not in tl and rel not in tr:
+                                raise Fail("merged listing reports a file that exists on neither side", path=rel, listing=repr(ls), symptom="listdir-ghost")
                         st = lab.cs.state
                         for p in tr:
                             if "/" not in p[1:] and tr[p] is not None and p not in tl:
@@ -192,6 +231,11 @@ def _factory(params, env=None, monitor=None):
                 except CloudException as ex:
                     hist.append("exc:" + type(ex).__name__)
                 check_never_downloaded("api call")
+                pg = params.get("prefix_gaps") or []
+                if k < len(pg) and pg[k] == "Q":
+                    hist.append("Q")
+                    h.drain()
+                    continue
                 if params.get("slotmode") == "round":
                     RoundSlots(h)(params["slots"])
                 else:
@@ -209,7 +253,7 @@ def _factory(params, env=None, monitor=None):
                 raise Fail("a requested file is not in sync at quiescence", symptom="requested-not-synced", **info)
             if req_n and "/m/f" in tr and tl.get("/m/f") != tr.get("/m/f"):
                 raise Fail("a requested nested file is not in sync at quiescence", symptom="requested-not-synced", **info)
-            if auto and "/b" in tr and tl.get("/b") != tr.get("/b"):
+            if auto and not unreq_b_any[0] and "/b" in tr and tl.get("/b") != tr.get("/b"):
                 raise Fail("a file matching the auto-sync predicate was not downloaded", symptom="predicate-not-synced", **info)
             check_never_downloaded("quiescence")
         except Fail as f:
@@ -264,6 +308,9 @@ def jobs(tier):
         for pre in (["request-path", "unrequest"], ["request-id", "unrequest"]):
             out.append({"harness": "smart", "params": {"flavour": f, "auto": False, "nact": n, "slots": 1, "slotmode": "round", "prefix": pre},
                         "label": "%s/no-predicate/%d-actions/prefix=%s" % (f, n, "+".join(pre))})
+        # a predicate-matched file is downloaded, the application un-requests it, then it is edited remotely
+        out.append({"harness": "smart", "params": {"flavour": f, "auto": True, "nact": 4, "slots": 1, "slotmode": "round", "prefix": ["remote-create-b", "unrequest-b"], "prefix_gaps": ["Q"]},
+                    "label": "%s/auto-b/4-actions/prefix=remote-create-b+unrequest-b" % f})
         # nested remote file: the request has to bring the (possibly unsynced) parent folder first; un-request by id
         n = 3 if (q or f == "path") else 4
         for pre in (["remote-create-nested"], ["request-path", "unrequest-id"]):
